@@ -445,6 +445,9 @@ pub fn discr<D: InstructionData>(d: D) -> [u8; 8] {
 pub enum VenueKind {
     Kamino,
     Solend,
+    /// fields reused: market = drift state, lma = drift signer, reserve = spot market,
+    /// obligation = drift user, supply = spot market vault, col_mint = user stats
+    Drift,
 }
 /// Venue-side accounts of a pass-through bank (Kamino and Solend share the reserve/obligation shape).
 #[derive(Clone, Copy, Debug)]
@@ -556,6 +559,55 @@ pub fn solend_withdraw(group: Pubkey, acct: Pubkey, authority: Pubkey, bank: Pub
             solend_program: marginfi::constants::SOLEND_PROGRAM_ID, token_program,
         },
         marginfi::instruction::SolendWithdraw { amount, withdraw_all: all },
+        rem,
+    )
+}
+
+// ---------------------------------------------------------------- Drift pass-through
+#[allow(clippy::too_many_arguments)]
+pub fn add_bank_drift(group: Pubkey, admin: Pubkey, fee_payer: Pubkey, mint: Pubkey, seed: u64, spot_market: Pubkey, token_program: Pubkey, cfg: marginfi::state::drift::DriftConfigCompact, rem: Vec<AccountMeta>) -> (Instruction, Pubkey) {
+    let bank = bank_pda(&group, &mint, seed);
+    let k = BankKeys::of(bank);
+    let drift = marginfi::constants::DRIFT_PROGRAM_ID;
+    let user = Pubkey::find_program_address(&[b"user", k.lva.as_ref(), &0u16.to_le_bytes()], &drift).0;
+    let stats = Pubkey::find_program_address(&[b"user_stats", k.lva.as_ref()], &drift).0;
+    (
+        mk(
+            marginfi::accounts::LendingPoolAddBankDrift {
+                group, admin, fee_payer, bank_mint: mint, bank, integration_acc_1: spot_market, integration_acc_2: user, integration_acc_3: stats,
+                liquidity_vault_authority: k.lva, liquidity_vault: k.lv, insurance_vault_authority: k.iva, insurance_vault: k.iv, fee_vault_authority: k.fva, fee_vault: k.fv,
+                token_program, system_program: system_program::ID,
+            },
+            marginfi::instruction::LendingPoolAddBankDrift { bank_config: cfg, bank_seed: seed },
+            rem,
+        ),
+        bank,
+    )
+}
+#[allow(clippy::too_many_arguments)]
+pub fn drift_deposit(group: Pubkey, acct: Pubkey, authority: Pubkey, bank: Pubkey, ta: Pubkey, mint: Pubkey, token_program: Pubkey, kk: &VenueKeys, amount: u64) -> Instruction {
+    mk(
+        marginfi::accounts::DriftDeposit {
+            group, marginfi_account: acct, authority, bank, drift_oracle: None,
+            liquidity_vault_authority: pda(LIQUIDITY_VAULT_AUTHORITY_SEED, &bank), liquidity_vault: pda(LIQUIDITY_VAULT_SEED, &bank), signer_token_account: ta,
+            drift_state: kk.market, integration_acc_2: kk.obligation, integration_acc_3: kk.col_mint, integration_acc_1: kk.reserve, drift_spot_market_vault: kk.supply, mint,
+            drift_program: marginfi::constants::DRIFT_PROGRAM_ID, token_program, system_program: system_program::ID,
+        },
+        marginfi::instruction::DriftDeposit { amount },
+        vec![],
+    )
+}
+#[allow(clippy::too_many_arguments)]
+pub fn drift_withdraw(group: Pubkey, acct: Pubkey, authority: Pubkey, bank: Pubkey, ta: Pubkey, mint: Pubkey, token_program: Pubkey, kk: &VenueKeys, amount: u64, all: Option<bool>, rem: Vec<AccountMeta>) -> Instruction {
+    mk(
+        marginfi::accounts::DriftWithdraw {
+            group, marginfi_account: acct, authority, bank, drift_oracle: None,
+            liquidity_vault_authority: pda(LIQUIDITY_VAULT_AUTHORITY_SEED, &bank), liquidity_vault: pda(LIQUIDITY_VAULT_SEED, &bank), destination_token_account: ta,
+            drift_state: kk.market, integration_acc_2: kk.obligation, integration_acc_3: kk.col_mint, integration_acc_1: kk.reserve, drift_spot_market_vault: kk.supply,
+            drift_reward_oracle: None, drift_reward_spot_market: None, drift_reward_mint: None, drift_reward_oracle_2: None, drift_reward_spot_market_2: None, drift_reward_mint_2: None,
+            drift_signer: kk.lma, mint, drift_program: marginfi::constants::DRIFT_PROGRAM_ID, token_program, system_program: system_program::ID,
+        },
+        marginfi::instruction::DriftWithdraw { amount, withdraw_all: all },
         rem,
     )
 }
